@@ -145,6 +145,60 @@ def compare_covmat(ctx, py, sxc, res, mo):
             break
     return found
 
+def db_of_sx(d):
+    col = lambda c: [undy(x) for x in c]
+    return {'coords': [col(c) for c in d[0]], 'z': [col(c) for c in d[1]], 'verr': [col(c) for c in d[2]], 'fext': [col(c) for c in d[3]],
+            'sel': [bool(x) for x in d[4]], 'n': len(d[0][0])}
+
+def covmat_py_of_sx(c):
+    m = c[5]
+    return {'mode': 1, 'ndim': c[1], 'nvar': c[2], 'db1': db_of_sx(c[3]), 'db2': db_of_sx(c[4]) if c[4] else None,
+            'model': {'structs': m[0], 'order': m[1], 'nfex': m[2], 'means': [undy(x) for x in m[3]]},
+            'ivar0': c[6], 'jvar0': c[7], 'nbgh1': c[8], 'nbgh2': c[9]}
+
+def model_of_sx(m): return {'structs': m[0], 'order': m[1], 'nfex': m[2], 'means': [undy(x) for x in m[3]]}
+
+def py_of_sx(c):
+    """python-side description of a corpus case (inverse of the generators' encoders)"""
+    m = c[0]
+    if m == 1: return covmat_py_of_sx(c)
+    if m == 4:
+        if c[1] == 0: return {'mode': 4, 'sub': 0, 'ndim': c[2], 'db1': db_of_sx(c[3]), 'db2': db_of_sx(c[4]), 'dist_type': c[5], 'dmax': [undy(x) for x in c[6]]}
+        return {'mode': 4, 'sub': 1, 'ndim': c[2], 'dbin': db_of_sx(c[3]), 'dbout': db_of_sx(c[4]), 'nmini': c[5][0], 'nmaxi': c[5][1], 'radius': undy(c[5][2]), 'leaf': c[5][3]}
+    py = {'mode': m, 'ndim': c[1], 'nvar': c[2], 'dbin': db_of_sx(c[3]), 'calcul': [0], 'neigh': [0]}
+    if m == 2: py.update({'dbout': db_of_sx(c[4]), 'model': model_of_sx(c[5]), 'mv': (c[6][0], c[6][1], undy(c[6][2]))})
+    elif m == 3: py.update({'model': model_of_sx(c[4]), 'dbout': None}); py['nafext'] = any(x is None for col in py['dbin']['fext'] for x in col)
+    elif m == 5: py.update({'grid': (c[4][0], [undy(x) for x in c[4][1]], [undy(x) for x in c[4][2]]), 'model': model_of_sx(c[5]), 'neigh': c[6]})
+    elif m == 6: py.update({'dbout': db_of_sx(c[4]), 'model': model_of_sx(c[5]), 'neigh': c[6], 'colvars': c[7], 'sec': [[undy(x) for x in col] for col in c[8]]})
+    elif m == 7: py.update({'dbout': db_of_sx(c[4]), 'model': model_of_sx(c[5])})
+    return py
+
+def corpus_cases(mode, sub=None):
+    out = []
+    cp = os.path.join(VERIF, 'corpus', 'C04.sx')
+    if os.path.exists(cp):
+        for line in open(cp):
+            if line.strip() and not line.startswith('#'):
+                c = sx_parse(line)
+                if c[0] == mode and (sub is None or c[1] == sub): out.append((py_of_sx(c), c))
+    return out
+
+def compare_projection(ctx, py, sxc, res, mo):
+    """the pre-projected points stored by the optimisation (_p1As of every structure) against the model's exact T^-1 . x"""
+    if mo[2] != 1:
+        ctx.violation('model-drift:projected-distance', 'the model finds a cell where the squared distance of the projected points differs from the anisotropic one', {'case': sx_str(sxc)}, found_input=False)
+    db1 = py['db1']
+    for s, (PI, PM) in enumerate(zip(res[7], mo[3])):
+        if len(PI) != len(PM):
+            ctx.violation('model-drift:pre-projection', 'structure %d: %d stored points, model %d' % (s, len(PI), len(PM)), {'case': sx_str(sxc)}, found_input=False); return
+        for i, (a, b) in enumerate(zip(PI, PM)):
+            if db1['sel'] and not db1['sel'][i]: continue      # masked: stored as the undefined point
+            for d in range(py['ndim']):
+                x = undy(a[d]); y = unq(b[d])
+                if x is None or abs(float(x) - float(y)) > 1e-11 * (1 + abs(float(y))):
+                    ctx.violation('model-drift:pre-projection', 'structure %d sample %d coordinate %d: stored %r, model T^-1.x = %r' % (s, i, d, fl(x), float(y)),
+                                  {'case': sx_str(sxc)}, found_input=False); return
+
 # ============================================================================================== kriging helpers
 def parse_k(r, c01dump=False, xvalid=False):
     ok, per = r
@@ -196,6 +250,29 @@ def diff_outputs(a, b, nvar, tol, zscale, vscale, what=('est', 'std', 'varz'), s
             if bad: return '%s[var %d]: %.12g vs %.12g' % (key, v, x, y)
     return None
 
+def det(M):
+    M = [list(r) for r in M]; n = len(M); d = Fraction(1)
+    for c in range(n):
+        p = next((r for r in range(c, n) if M[r][c] != 0), None)
+        if p is None: return Fraction(0)
+        if p != c: M[c], M[p] = M[p], M[c]; d = -d
+        d *= M[c][c]
+        for r in range(c + 1, n):
+            f = M[r][c] / M[c][c]
+            M[r] = [x - f * y for x, y in zip(M[r], M[c])]
+    return d
+
+def gen_regular_model(rng, ndim, nvar, order, nfex):
+    """kriggen.gen_model, redrawn until every sill matrix is regular (a rank-deficient sill matrix makes the cokriging system exactly
+    singular: what KrigingSystem does then is C01's subject, not a difference between two paths)"""
+    while True:
+        model = gen_model(rng, ndim, nvar, order=order, nfex=nfex)
+        ok = True
+        for s in model['structs']:
+            S = [[undy(s[4][i * nvar + j]) for j in range(nvar)] for i in range(nvar)]
+            if det(S) == 0: ok = False
+        if ok: return model
+
 def gen_krig_base(ctx, nvars=(1, 1, 2), orders=(-1, 0, 0, 1, 1), nfexs=(0, 0, 1), nmax=10, hetero_p=.4, sel_p=.25, m=4, dims=(1, 2, 2, 3)):
     rng = ctx.rng
     ndim = rng.choice(dims); nvar = rng.choice(nvars)
@@ -214,7 +291,7 @@ def gen_krig_base(ctx, nvars=(1, 1, 2), orders=(-1, 0, 0, 1, 1), nfexs=(0, 0, 1)
     for j in range(m):
         while tuple(dbout['coords'][d][j] for d in range(ndim)) in pts:
             dbout['coords'][0][j] += F(1, 8)
-    model = gen_model(rng, ndim, nvar, order=order, nfex=nfex)
+    model = gen_regular_model(rng, ndim, nvar, order, nfex)
     return {'ndim': ndim, 'nvar': nvar, 'dbin': dbin, 'dbout': dbout, 'model': model, 'calcul': [0], 'neigh': [0]}
 
 def model_cases_for(py, drifts, per):
@@ -584,6 +661,7 @@ def pair_site(py):
 def run_pair(ctx, exe, name, cases, compare, crash_found):
     """cases: list of (py, sx); compare(py, sx, result) -> found; a crash loses the rest of the file: rerun the remainder once"""
     found = False
+    if cases: ctx.sample({'pair': name, 'site': pair_site(cases[-1][0]), 'case': sx_str(cases[-1][1])[:500]}, 9)
     start = 0
     for attempt in range(3):
         cf = write_cases(ctx, '%s_%d' % (name, attempt), [c[1] for c in cases[start:]])
@@ -620,37 +698,61 @@ def run(ctx):
         print('ERROR: C01 model runner does not build'); sys.exit(3)
     found_input = False
     q = ctx.quick()
-    mult = 1 if q else 12
+    mult = float(os.environ['VERIF_C04_MULT']) if 'VERIF_C04_MULT' in os.environ else (1 if q else 10)   # dev knob: 0 = corpus only
     mcases = []    # (C01 model case, (py, harness record)) collected by the kriging pairs
     def on(m): return not only or m in only
     if on(1):
-        cases = [gen_covmat(ctx, k) for k in range(150 * mult)]
-        found_input |= run_pair(ctx, exe, 'p1', cases, lambda py, sxc, r: compare_covmat(ctx, py, sxc, r, None), None)
+        cases = [gen_covmat(ctx, k) for k in range(int(400 * mult))]
+        cases = corpus_cases(1) + cases     # corpus first (minimised cases kept from earlier failures)
+        impl_res = {}
+        found_input |= run_pair(ctx, exe, 'p1', cases, lambda py, sxc, r: impl_res.__setitem__(id(sxc), r), None)
+        runner = None if nocoq else build_runner(ctx)
+        if not nocoq and runner is None:
+            print('ERROR: C04 model runner does not build'); sys.exit(3)
+        done = [(py, sxc, impl_res[id(sxc)]) for py, sxc in cases if id(sxc) in impl_res]
+        models = [None] * len(done)
+        if runner is not None:
+            mf = write_cases(ctx, 'model', [[sxc[1], sxc[2], sxc[3], sxc[4], r[6], sxc[6], sxc[7], sxc[8], sxc[9]] for py, sxc, r in done])
+            rcm, models = run_model(ctx, runner, mf)
+            if len(models) != len(done):
+                print('ERROR: C04 model runner returned %d results for %d cases' % (len(models), len(done))); sys.exit(3)
+        for (py, sxc, r), mo in zip(done, models):
+            if mo is not None and mo and mo[0] == -999:
+                print('ERROR: C04 model rejected a case: %s' % sx_str(sxc)[:300]); sys.exit(3)
+            found_input |= compare_covmat(ctx, py, sxc, r, mo)
+            if mo is not None: compare_projection(ctx, py, sxc, r, mo)
         ctx.log('pair 1 (covariance matrices): %d cases' % len(cases))
     if on(2):
-        cases = [gen_unique_moving(ctx, k) for k in range(50 * mult)]
+        cases = [gen_unique_moving(ctx, k) for k in range(int(120 * mult))]
+        cases = corpus_cases(2) + cases
         found_input |= run_pair(ctx, exe, 'p2', cases, lambda py, sxc, r: compare_unique_moving(ctx, py, sxc, r, mcases), None)
         ctx.log('pair 2 (unique vs wide moving): %d cases' % len(cases))
     if on(3):
-        cases = [gen_xvalid(ctx, k) for k in range(40 * mult)]
+        cases = [gen_xvalid(ctx, k) for k in range(int(100 * mult))]
+        cases = corpus_cases(3) + cases
         found_input |= run_pair(ctx, exe, 'p3', cases, lambda py, sxc, r: compare_xvalid(ctx, py, sxc, r, mcases), None)
         ctx.log('pair 3 (xvalid shortcut vs leave-one-out): %d cases' % len(cases))
     if on(4):
-        cases = [gen_migrate(ctx, k) for k in range(80 * mult)]
+        cases = [gen_migrate(ctx, k) for k in range(int(200 * mult))]
+        cases = corpus_cases(4, 0) + cases
         found_input |= run_pair(ctx, exe, 'p4m', cases, lambda py, sxc, r: compare_migrate(ctx, py, sxc, r), None)
-        cases2 = [gen_ballneigh(ctx, k) for k in range(60 * mult)]
+        cases2 = [gen_ballneigh(ctx, k) for k in range(int(150 * mult))]
+        cases2 = corpus_cases(4, 1) + cases2
         found_input |= run_pair(ctx, exe, 'p4n', cases2, lambda py, sxc, r: compare_ballneigh(ctx, py, sxc, r), None)
         ctx.log('pair 4 (ball tree vs exhaustive): %d + %d cases' % (len(cases), len(cases2)))
     if on(5):
-        cases = [gen_block1(ctx, k) for k in range(40 * mult)]
+        cases = [gen_block1(ctx, k) for k in range(int(100 * mult))]
+        cases = corpus_cases(5) + cases
         found_input |= run_pair(ctx, exe, 'p5', cases, lambda py, sxc, r: compare_block1(ctx, py, sxc, r, mcases), None)
         ctx.log('pair 5 (block with one point vs point): %d cases' % len(cases))
     if on(6):
-        cases = [gen_colcok(ctx, k) for k in range(40 * mult)]
+        cases = [gen_colcok(ctx, k) for k in range(int(40 * mult))]
+        cases = corpus_cases(6) + cases
         found_input |= run_pair(ctx, exe, 'p6', cases, lambda py, sxc, r: compare_colcok(ctx, py, sxc, r, mcases), None)
         ctx.log('pair 6 (collocated cokriging): %d cases' % len(cases))
     if on(7):
-        cases = [gen_calcul(ctx, k) for k in range(50 * mult)]
+        cases = [gen_calcul(ctx, k) for k in range(int(120 * mult))]
+        cases = corpus_cases(7) + cases
         found_input |= run_pair(ctx, exe, 'p7', cases, lambda py, sxc, r: compare_calcul(ctx, py, sxc, r, mcases), None)
         ctx.log('pair 7 (KrigingCalcul vs KrigingSystem): %d cases' % len(cases))
     # ---------------- the exact kriging model of C01 on the reference runs of the kriging pairs
@@ -662,6 +764,10 @@ def run(ctx):
         for (mc, (py, t)), mo in zip(mcases, model):
             if mo and mo[0] == -999:
                 print('ERROR: C01 model rejected a case'); sys.exit(3)
+            if mo[0] == 0:
+                # the exact model finds no solvable system (too few data, undefined target drift, singular matrix): what impl
+                # returns then is C01's subject; both paths of the pair have been compared above
+                ctx.dist('m01:not-solvable-for-the-model'); ctx.cov['tie_excluded'] += 1; continue
             kind, text = c01.compare_target(ctx, py, t, mo)
             if kind == 'excluded': ctx.cov['tie_excluded'] += 1; continue
             ctx.count('m01:' + sx_str(mc)[:1500])
@@ -670,7 +776,27 @@ def run(ctx):
             elif kind == 'internal':
                 ctx.violation('model-drift:' + c01.site_key(py), text, {'model_case': sx_str(mc), 'target': t['it']}, found_input=False)
         ctx.log('C01 exact model on %d reference systems' % len(mcases))
-    ctx.cov['rule'] = 'see notes'
+    ctx.cov['trusted_base'] += ['the runner of C01 (coq/C01/Run.v) for the exact kriging system of the reference runs',
+                                'point-wise covariance values Model::eval harvested from the implementation (the covariance function itself is C03\'s subject)']
+    ctx.cov['rule'] = ('one evaluation = one comparison of the two implementation paths of a pair on one generated case (pair 1: one matrix pair, rectangular or '
+                       'symmetric; kriging pairs: one target or one cross-validated sample; pair 4: one target), plus one per reference kriging system replayed on the '
+                       'exact model of C01; distinct = distinct (case text, target); non-trivial = the compared object exists (non-empty matrix / neighbourhood) and, for '
+                       'kriging, condition number <= 1e7 (others, and ties of nearest-point decisions, are counted as tie_excluded)')
+    ctx.assumptions = [
+        'pair 1: the correlation of a structure is an arbitrary function of the squared anisotropic distance (Section variable, hypothesis: compatible with ==); '
+        'values are checked against the point-wise Model::eval harvested on exactly the pairs used; nbgh indices are valid sample ranks; coordinates are defined',
+        'pair 2: one sector, no extra checker, no cross-validation, radius >= every distance (or no radius), nmaxi >= number of samples, nmini <= number of usable samples',
+        'pair 3: monovariate (the shortcut only handles variable 0); B_ii <> 0; the cross-validated sample has defined coordinates and external drifts',
+        'pair 4: ties of distances excluded; neighbourhood comparison only in 2-D (BiTargetCheckDistance without coefficients measures exactly two coordinates: 1-D / 3-D are C06 findings), '
+        'no mask, no undefined value, one sector, nmaxi <= number of samples',
+        'pair 5: estimate, weights and Var(Z*) compared; the estimation variance only through stdev^2 - C(target,target), because _covCvvCalcul uses a randomised second discretisation',
+        'pair 6: the theorem describes the system the accessors of KrigingSystem define for rank -1; the implementation crashes before building it (finding)',
+        'pair 7: covariance / drift matrices built with the Model API on data without undefined coordinates or external drifts (same equation set as KrigingSystem); fresh objects only '
+        '(cache invalidation belongs to C10)',
+        'round-off tolerance 1e-9 x condition number of the kriging matrix (inf-norm), as in C01']
+    ctx.notes = ['not covered: Bayesian, collocated and cross-validation patches of KrigingCalcul (setBayes / setColCokUnique / setXvalidUnique); neighbourhood memo reuse (_checkUnchanged); '
+                 'image neighbourhood; non-stationary models (the optimised path is disabled for them); undefined coordinates (C05)',
+                 'C04_ball_moving is stated in full (Definition C04_ball_moving_statement) but only the degenerate case is proved (C04_ball_moving_partial)']
     if not proofs_ok: proof_break_violation(ctx, found_input)
 
 if __name__ == '__main__':
